@@ -55,6 +55,9 @@ pub struct Doc {
     pub known_to_server: bool,
     /// step at which the client last sent a new text for it
     pub last_change_step: u64,
+    /// a disk error was injected since the server last rebuilt this document's dictionary: what
+    /// it shows for it may have been computed without a dictionary it could not read
+    pub dict_tainted: bool,
 }
 
 #[derive(Clone, Debug)]
@@ -87,6 +90,9 @@ pub struct AddedWord {
     pub file: Option<String>,
     pub req_id: i64,
     pub acked: bool,
+    /// a disk error was injected while the command was being served: the word may or may not
+    /// have reached the dictionary (it is never counted as acknowledged)
+    pub faulted: bool,
 }
 
 #[derive(Clone, Debug)]
@@ -198,6 +204,7 @@ impl Client {
                     d.history = vec![text];
                     d.known_to_server = true;
                     d.last_change_step = step;
+                    d.dict_tainted = false;
                 }
             }
             "textDocument/didChange" => {
@@ -210,6 +217,7 @@ impl Client {
                         d.version = version;
                         d.history.push(text);
                         d.last_change_step = step;
+                        d.dict_tainted = false;
                     }
                 }
             }
@@ -241,19 +249,32 @@ impl Client {
                     d.known_to_server = false;
                 }
             }
+            "workspace/didChangeConfiguration" => {
+                // (the server rebuilds every open document's dictionary)
+                for d in self.docs.iter_mut() {
+                    d.dict_tainted = false;
+                }
+            }
             "workspace/executeCommand" => {
                 let id = json["id"].as_i64().unwrap_or(-1);
                 let cmd = params["command"].as_str().unwrap_or("");
                 let args = params["arguments"].as_array().cloned().unwrap_or_default();
                 match cmd {
                     "HarperAddToUserDict" => {
+                        // (the server rebuilds every open document's dictionary)
+                        for d in self.docs.iter_mut() {
+                            d.dict_tainted = false;
+                        }
                         if let Some(w) = args.first().and_then(|a| a.as_str()) {
-                            self.added.push(AddedWord { word: w.to_string(), file: None, req_id: id, acked: false });
+                            self.added.push(AddedWord { word: w.to_string(), file: None, req_id: id, acked: false, faulted: false });
                         }
                     }
                     "HarperAddToFileDict" => {
                         if let (Some(w), Some(u)) = (args.first().and_then(|a| a.as_str()), args.get(1).and_then(|a| a.as_str())) {
-                            self.added.push(AddedWord { word: w.to_string(), file: Some(u.to_string()), req_id: id, acked: false });
+                            if let Some(d) = self.doc_mut(u) {
+                                d.dict_tainted = false;
+                            }
+                            self.added.push(AddedWord { word: w.to_string(), file: Some(u.to_string()), req_id: id, acked: false, faulted: false });
                         }
                     }
                     "HarperIgnoreLint" => {
@@ -362,7 +383,7 @@ impl Client {
                             self.shutdown_acked = true;
                         }
                         for a in self.added.iter_mut().filter(|a| a.req_id == idn) {
-                            a.acked = true;
+                            a.acked = !a.faulted;
                         }
                         for a in self.ignored.iter_mut().filter(|a| a.req_id == idn) {
                             a.acked = true;
